@@ -108,6 +108,12 @@ def synthetic_layouts(tier):
       for sizes in ([4], [1, 5], [3, 16, 17], [33]):
         g = synth.G(description=b"d" * dl)
         sg = g.subgraph()
+        # metadata buffers (as the converter writes: min_runtime_version, conversion metadata) - before the constants, after
+        # them, or none: they are buffers with data like any other
+        meta = (None, "before", "after")[(dl // (1 if tier == "thorough" else 3) + nzero) % 3]
+        if meta == "before":
+          g.metadata("min_runtime_version", b"1.5.0" + b"\0" * 11)
+          g.metadata("CONVERSION_METADATA", bytes(range(84)))
         x = g.tensor(sg, "x", [1, 2, 2, 4])
         w = g.tensor(sg, "w", [4, 4], np.arange(16, dtype=np.float32).reshape(4, 4) / 8 - 1)
         y = g.tensor(sg, "y", [1, 2, 2, 4])
@@ -117,10 +123,12 @@ def synthetic_layouts(tier):
           c = g.tensor(sg, "c%d" % k, [n], (np.arange(n, dtype=np.float32) + 1) / 4)
         for k in range(nzero):
           g.tensor(sg, "z%d" % k, [0], np.zeros([0], np.float32))
+        if meta == "after":
+          g.metadata("min_runtime_version", b"1.5.0" + b"\0" * 11)
         sg.inputs = [x]
         sg.outputs = [prev]
         g.signature("serving_default", 0, [("x", x)], [("o", prev)])
-        out.append(("layout dl=%d zero=%d sizes=%s" % (dl, nzero, sizes), g.bytes()))
+        out.append(("layout dl=%d zero=%d sizes=%s meta=%s" % (dl, nzero, sizes, meta), g.bytes()))
   return out
 
 
